@@ -228,7 +228,7 @@ def runSched (j : Json) : Except String Json := do
   let fuel := match fieldOpt j "fuel" with | some (.num n) => n.mantissa.toNat | _ => 100000
   let valid := match fieldOpt j "valid" with | some (.bool b) => b | _ => true
   let ops ← getArr (← field j "ops")
-  let d0 : DrvState := { s := { prog := prog, valid := valid } }
+  let d0 : DrvState := { s := Sched.init prog valid }
   let d ← ops.foldlM (stepOp ee fuel) d0
   pure (Json.mkObj [("calls", Json.arr d.calls)])
 
